@@ -245,6 +245,17 @@ impl ReqGen {
     fn bulk(&mut self) -> Vec<(Key, HLCTimestamp)> {
         let n = self.rng.gen_range(1..5);
         let mut v: Vec<(Key, HLCTimestamp)> = Vec::new();
+        if self.rng.gen_bool(0.5) {
+            // the way put_many / del_many build a request: every document carries the SAME stamp
+            let t = self.fresh_ts();
+            for _ in 0..n {
+                let k = self.key();
+                if !v.iter().any(|e| e.0 == k) {
+                    v.push((k, t));
+                }
+            }
+            return v;
+        }
         for _ in 0..n {
             let k = self.key();
             if !self.allow_dup_ids && v.iter().any(|e| e.0 == k) {
